@@ -101,11 +101,12 @@ pub fn check_case(case: &MapCase, st: &mut Stats) -> Check {
         renderings.push(("cr-only", case.file.render(&Render { eol: Eol::Cr, final_eol: true })));
     }
     for (ri, (rname, bytes)) in renderings.iter().enumerate() {
-        let m_plain = mapper(bytes, false)?;
-        let m_params = mapper(bytes, true)?;
+        // every constructor of the mapper (the From<&str> ones only for the first rendering: they cost as much as the others)
+        let variants = mapper_variants(bytes)?;
         let buf = write_cache(bytes)?;
         let cache = parse_cache(&buf)?;
-        let impls: [&dyn Retracer; 3] = [&m_plain, &m_params, &cache];
+        let mut impls: Vec<&dyn Retracer> = variants.iter().take(if ri == 0 { 6 } else { 2 }).map(|(m, _)| m as &dyn Retracer).collect();
+        impls.push(&cache);
         for (ii, r) in impls.into_iter().enumerate() {
             no_panic("query", || {
                 let mut scratch = Stats::new();
